@@ -89,14 +89,15 @@ def _negative_assert():
     if len(asserts) != 1:
         raise Refuse(f"expected exactly one assert in approximate_instances, found {len(asserts)}")
     a = asserts[0]
-    MINV = "min(np.min(pred_label_range[0]), np.min(ref_label_range[0]))"
+    # np.min of a scalar (the lower end of a label range) is that scalar
+    MINVS = ("min(np.min(pred_label_range[0]), np.min(ref_label_range[0]))", "min(pred_label_range[0], ref_label_range[0])")
 
     class Fold(ast.NodeTransformer):
         """the normaliser inlines a temporary used once: fold the minimum over both label ranges back into the name min_value"""
         n = 0
 
         def visit_Call(self, node):
-            if ast.unparse(node) == MINV:
+            if ast.unparse(node) in MINVS:
                 Fold.n += 1
                 return ast.Name(id="min_value", ctx=ast.Load())
             return self.generic_visit(node)
@@ -107,7 +108,7 @@ def _negative_assert():
     # min_value must be the minimum over both label ranges' lower ends
     defs = [s for s in body if isinstance(s, ast.Assign) and ast.unparse(s.targets[0]) == "min_value"]
     if Fold.n == 0:
-        if len(defs) != 1 or ast.unparse(defs[0].value) != MINV:
+        if len(defs) != 1 or ast.unparse(defs[0].value) not in MINVS:
             raise Refuse("min_value is not min over both label ranges")
         if body.index(defs[0]) > body.index(a):
             raise Refuse("assert precedes min_value")
